@@ -32,8 +32,8 @@ Theorem c07_session_ends : forall cf w,
   s_ctx (fst (step cf w ICancel)) = true /\
   (s_hb w = true -> forall v, v = HRebalance \/ v = HUnknownMember \/ v = HIllegalGen -> s_ctx (fst (step cf w (IHeartbeat v))) = true) /\
   (forall p, In (EvClaimReturn p) (snd (step cf w (IClaimReturn p))) -> s_ctx (fst (step cf w (IClaimReturn p))) = true) /\
-  (forall p b, (In (EvClaimSkip p) (snd (step cf w (IClaimGo p b))) \/ In (EvClaimFail p) (snd (step cf w (IClaimGo p b)))) ->
-               s_ctx (fst (step cf w (IClaimGo p b))) = true) /\
+  (forall p a1 a2, (In (EvClaimSkip p) (snd (step cf w (IClaimGo p a1 a2))) \/ In (EvClaimFail p) (snd (step cf w (IClaimGo p a1 a2)))) ->
+               s_ctx (fst (step cf w (IClaimGo p a1 a2))) = true) /\
   (ending (fst (step cf w IClose)) = true /\ s_ctx (fst (step cf (fst (step cf w IClose)) IWatch)) = true) /\
   (forall w', w_phase w' = PRunning -> s_ctx w' = true -> w_phase (fst (step cf w' IRelease)) = PReleasing).
 Proof. exact session_ends_holds. Qed.
@@ -45,14 +45,15 @@ Print Assumptions c07_ctx_stable.
 
 (* In every reachable state, a ConsumeClaim that starts has InitialOffset = the offset the coordinator stores for the
    partition if that lies inside the log, else Consumer.Offsets.Initial, and its first record is that offset
-   resolved against the log. *)
-Theorem c07_claim_start : forall cf store log ins p created o,
+   resolved against the log; the fallback to Initial is taken only for an out-of-range offset: when the first
+   ConsumePartition fails for any other reason (a1 = false) no ConsumeClaim starts (the claim goroutine ends the session). *)
+Theorem c07_claim_start : forall cf store log ins p a1 a2 o,
   valid_initial cf ->
   let w := final cf (init_world store log) ins in
-  In (EvClaimStart p o) (snd (step cf w (IClaimGo p created))) ->
+  In (EvClaimStart p o) (snd (step cf w (IClaimGo p a1 a2))) ->
   let '(lo, hi) := log_get (w_log w) p in
-  o = start_spec cf (committed (w_store w) p) lo hi /\
-  exists c, claim_find (s_claims (fst (step cf w (IClaimGo p created)))) p = Some c /\ cl_state c = CRunning /\
+  a1 = true /\ o = start_spec cf (committed (w_store w) p) lo hi /\
+  exists c, claim_find (s_claims (fst (step cf w (IClaimGo p a1 a2)))) p = Some c /\ cl_state c = CRunning /\
             cl_start c = resolve o lo hi /\ cl_consumed c = 0%nat.
 Proof. exact claim_start_holds. Qed.
 Print Assumptions c07_claim_start.
